@@ -431,10 +431,14 @@ Qed.
 Definition sec_ok (sec : section) : Prop := let '(_, addr, size) := sec in addr < two64 /\ size < two64.
 Definition sec_fuel (fuel : nat) (sec : section) : Prop :=
   let '(_, addr, size) := sec in (N.to_nat (sec_n addr size) < fuel)%nat.
-(** fuel: only the sections that are VISITED need it - an empty section (the all-zero null section every ELF table starts
-    with: its page count `size - 1` wraps) is never delivered by the visitor *)
-Definition fuel_ok (fuel : nat) (secs : list section) (s : st) : Prop :=
-  Forall (sec_fuel fuel) (nonempty secs) /\ (N.to_nat (resv_n (last s)) < fuel)%nat.
+(** fuel: only the sections whose pages are MAPPED need it - non-empty (an empty section, e.g. the all-zero null section
+    every ELF table starts with, whose page count `size - 1` wraps, is never delivered by the visitor) and at or above the
+    kernel offset (the closure returns at once for `secAddress < kernelPageOffset`, e.g. for the large non-alloc .symtab /
+    .debug sections at address 0) *)
+Definition mapped (off : N) (secs : list section) : list section :=
+  filter (fun sec : section => let '(_, addr, _) := sec in negb (addr <? off)) (nonempty secs).
+Definition fuel_ok (fuel : nat) (off : N) (secs : list section) (s : st) : Prop :=
+  Forall (sec_fuel fuel) (mapped off secs) /\ (N.to_nat (resv_n (last s)) < fuel)%nat.
 
 Lemma Forall_filter {A} (P : A -> Prop) f l : Forall P l -> Forall P (filter f l).
 Proof. induction 1 as [|x l Hx Hl IH]; cbn [filter]; [constructor|]. destruct (f x); [constructor|]; assumption. Qed.
@@ -445,7 +449,7 @@ Proof. induction secs as [|x xs IH]; [reflexivity | exact IH]. Qed.
 Ltac wsimp := cbn [f_world_trace f_world_mem set_f_world_trace set_f_world_mem].
 
 Theorem setup_kernel_is_translation off secs s tr0 fuel :
-  off < two64 -> last s < two64 -> Forall sec_ok secs -> fuel_ok fuel secs s ->
+  off < two64 -> last s < two64 -> Forall sec_ok secs -> fuel_ok fuel off secs s ->
   go_vmm_setupPDTForKernel fuel (W tr0 s) off o_kactivate o_kinit o_kmap M.o_alloc o_translate (nonempty secs) =
   match setup_kernel_tr off secs s tr0 with
   | None => GPanic
@@ -467,20 +471,26 @@ Proof.
   set (tr2 := ev_kinit kf :: ev_alloc :: tr0).
   change (GCall "kernelPDT.Init" [GNum kf] :: GCall "mm.AllocFrame" [] :: tr0) with tr2.
   match goal with |- context [gvisit ?f _ _] => set (vstep := f) end.
-  assert (HV : forall l tr s e, Forall sec_ok l -> Forall (sec_fuel fuel) l ->
+  assert (HV : forall l tr s e, Forall sec_ok l ->
+             Forall (sec_fuel fuel) (filter (fun sec : section => let '(_, addr, _) := sec in negb (addr <? off)) l) ->
              gvisit vstep l (W tr s, P.err_of e) =
              match fold_left (fun acc sec => visit_tr off sec acc) l (Some (s, e, tr)) with
              | None => GPanic
              | Some (s', e', tr') => GOk (W tr' s', P.err_of e')
              end).
   { intros l. induction l as [|[[sfl addr] size] l IH]; intros tr sa e Hl1 Hl2; [reflexivity|].
-    inversion Hl1 as [|? ? Hso Hl1']; subst. inversion Hl2 as [|? ? Hfu Hl2']; subst.
-    unfold sec_ok in Hso. destruct Hso as [Haddr Hsize]. unfold sec_fuel in Hfu.
+    inversion Hl1 as [|? ? Hso Hl1']; subst.
+    unfold sec_ok in Hso. destruct Hso as [Haddr Hsize].
+    cbn [filter] in Hl2.
+    assert (Hl2' : Forall (sec_fuel fuel) (filter (fun sec : section => let '(_, addr, _) := sec in negb (addr <? off)) l))
+      by (destruct (addr <? off); cbn [negb] in Hl2; [exact Hl2 | inversion Hl2; assumption]).
     cbn [gvisit fold_left visit_tr].
     unfold vstep at 1. cbv beta iota. rewrite M.err_of_nil.
     destruct (negb (e =? 0) || (addr <? off)) eqn:Eskip.
     { apply IH; assumption. }
-    apply orb_false_elim in Eskip. destruct Eskip as [Ee _].
+    apply orb_false_elim in Eskip. destruct Eskip as [Ee Eao].
+    assert (Hfu : (N.to_nat (sec_n addr size) < fuel)%nat)
+      by (rewrite Eao in Hl2; cbn [negb] in Hl2; inversion Hl2 as [|? ? Hfu0 _]; exact Hfu0).
     apply negb_false_iff in Ee. apply N.eqb_eq in Ee. subst e.
     rewrite sec_flags_trans. cbv zeta.
     rewrite (page_from_addr_any addr Haddr), sec_last_trans, (sec_frame_trans off addr Hoff).
@@ -549,7 +559,7 @@ Proof.
 Qed.
 
 Theorem setup_kernel_is_translation_state off secs s tr0 fuel :
-  off < two64 -> last s < two64 -> Forall sec_ok secs -> fuel_ok fuel secs s ->
+  off < two64 -> last s < two64 -> Forall sec_ok secs -> fuel_ok fuel off secs s ->
   match go_vmm_setupPDTForKernel fuel (W tr0 s) off o_kactivate o_kinit o_kmap M.o_alloc o_translate (nonempty secs) with
   | GOk (w, e) => GOk (f_world_mem w, e)
   | GPanic => GPanic
